@@ -339,10 +339,10 @@ class RunOde:
             a = n.ast
             if n.idx in after_step:
                 self.req("D10.8", n, v, neg(conj(
-                    G("SR"), neg(G("SF")), neg(G("PEND")), G("BUILT"))),
-                    "a running integration whose step was fine is not "
-                    "continued: the stepping loop can be left while the "
-                    "solver is still running")
+                    G("SR"), neg(G("SF")), ok_atom, G("BUILT"))),
+                    "a running integration whose step stayed inside the "
+                    "bounds is not continued: the stepping loop can be left "
+                    "while the solver is still running")
             if n is search_head:
                 for i in sorted(self.idx_names):
                     iname = ast.Name(id=i, ctx=ast.Load())
@@ -365,6 +365,8 @@ class RunOde:
             elif isinstance(a, ast.Expr) and self._is_step(a.value):
                 self.req("D10.8", n, v, neg(G("SF")),
                          "a finished integration is stepped again")
+                self.req("D10.8", n, v, disj(G("SR"), G("SF")),
+                         "a failed integration is stepped again")
                 self.req("D10.8", n, v, neg(G("PEND")),
                          "a step can be followed by the next step without "
                          "its interpolator being collected")
@@ -735,6 +737,10 @@ def _static(ctx: Ctx, ro: FuncInfo, m: RunOde) -> None:
                 ini.module, s.value) is True for s in ast.walk(ini.node))
         if not sets_ok:
             bad.append("the tracker's init() does not set is_ok")
+    for lp in (m.outer, m.step_loop):
+        if lp is not None and const(lp.test) is False:
+            bad.append(f"`while {ast.unparse(lp.test)}` at line {lp.lineno} "
+                       "never runs")
     ctx.ob("D10.8", ro, m.mk, not bad,
            "the integrator starts at time 0 from the starting state, runs up "
            "to max_time over the tracker's f; the tracker is built from "
